@@ -185,5 +185,6 @@ inline bool nontrivial_range(std::size_t N, A3 const &mn, A3 const &sp, std::siz
 void register_pos_shards();  // C08_pos.cpp: free functions on pos/dim/min/sup for three size types
 void register_grid_shards(); // C08_grid.cpp: grid::object, at_optional, pos_ref_range
 void register_ops_shards();  // C08_ops.cpp: resize, map, apply, fill, clamp helpers
+void register_scale_shards(); // C08_scale.cpp: boundary lattice of large extents/coordinates; grid value operations
 }
 #endif
